@@ -1,7 +1,7 @@
 """C03 — connection persistence follows the request's keep-alive semantics.
 
-Decided statically (DESIGN.md §4 C03) by exhaustive finite-domain symbolic
-evaluation (vt.x_symex; nothing of tornado is executed) of the four anchored
+Decided statically (DESIGN.md §4 C03) by exhaustive finite-domain abstract
+interpretation over the AST (vt.x_absint; nothing of tornado is executed) of the four anchored
 mechanisms plus guard dominance on ``_read_message``:
 
 * ``_can_keep_alive`` equals the reference decision table over {no_keep_alive,
@@ -30,9 +30,9 @@ from ..model import AnalysisError
 from ..rules import call_sites
 from ..mutate import mutate, remove_stmts, replace_expr, replace_stmt, parse_stmt, parse_expr
 from ..x_http import atom_edges, reach_without, resolve_call, single_bindings, node_mentions, self_modsets
-from ..x_symex import Evaluator, HeaderMap, Obj, UNK
+from ..x_absint import Evaluator, HeaderMap, Obj, UNK
 
-TECHNIQUE = "exhaustive finite-domain symbolic evaluation of the keep-alive decision, header emission and close functions + guard dominance on the CFG"
+TECHNIQUE = "exhaustive finite-domain abstract interpretation of the keep-alive decision, header emission and close functions + guard dominance on the CFG"
 EXPLANATION = (
     "The bodies of HTTP1Connection._can_keep_alive / write_headers (server branch) / finish / _finish_request are evaluated on abstract stub "
     "objects for every valuation of a finite input domain (version x Connection value x method x status x Content-Length x flags); unknown "
@@ -214,6 +214,47 @@ def check_read_message(ck):
         ck.ob(R, fi, cfg.nodes[nid].ast, nid not in r, "_read_finished is set on every path before delegate.finish()")
 
 
+def check_exchange_result(ck):
+    """after a completed exchange on an attached stream _read_message returns True (the serving loop goes on)"""
+    R = "C03.exchange-returns-true"
+    fi = ck.func(H1, "HTTP1Connection._read_message")
+    cfg = fi.cfg
+    fins = [n for n, c in cfg.find(lambda x: isinstance(x, ast.Call) and q.call_attr(x) == "finish" and not (q.dotted(x.func.value) or "").startswith("self"))]
+    ck.floor(R, len(fins), 1, "delegate.finish() sites")
+    detached = atom_edges(cfg, lambda a: True if (isinstance(a, ast.Compare) and isinstance(a.ops[0], ast.Is) and q.dotted(a.left) == "self.stream" and q.is_const(a.comparators[0], None)) else None)
+    n = 0
+    for f in fins:
+        r = reach_without(cfg, detached, start=f.id, follow_exc=False)
+        rets = [cfg.nodes[i] for i in r if cfg.nodes[i].kind == "stmt" and isinstance(cfg.nodes[i].ast, ast.Return)]
+        for rt in rets:
+            n += 1
+            ck.ob(R, fi, rt.ast, q.is_const(rt.ast.value, True), "after delegate.finish() on an attached stream _read_message returns True, so a persistent connection is served again")
+    ck.floor(R, n, 1, "returns after a completed exchange")
+    lp = ck.func(H1, "HTTP1ServerConnection._server_request_loop")
+    loops = [w for w in q.walk_body(lp.node) if isinstance(w, ast.While)]
+    ck.floor(R, len(loops), 1, "loops in _server_request_loop")
+    for w in loops:
+        ck.ob(R, lp, w, q.is_const(w.test, True) and any(isinstance(c, ast.Call) and q.call_attr(c) == "read_response" for c in ast.walk(w)), "the serving loop reads requests until told to stop")
+
+
+def check_per_request_state(ck):
+    R = "C03.per-request-state"
+    ci = ck.func(H1, "HTTP1Connection.__init__")
+    for attr in ("_disconnect_on_finish", "_read_finished", "_write_finished"):
+        sts = q.stores_to(ci.node, "self." + attr)
+        ck.ob(R, ci, sts[0] if sts else ci.node, len(sts) == 1 and q.is_const(sts[0].value, False), "a new request starts with %s = False" % attr, construct="init %s" % attr)
+    lp = ck.func(H1, "HTTP1ServerConnection._server_request_loop")
+    pm = q.parent_map(lp.node)
+    ctor = [c for c in q.calls(lp.node) if q.call_attr(c) == "HTTP1Connection"]
+    ck.floor(R, len(ctor), 1, "HTTP1Connection constructions in the serving loop")
+    for c in ctor:
+        ck.ob(R, lp, c, any(isinstance(a, ast.While) for a in q.ancestors(pm, c)), "persistence state is per request: a fresh HTTP1Connection for every request of the connection")
+        ck.ob(R, lp, c, len(c.args) >= 2 and q.is_const(c.args[1], False), "the serving loop creates server-mode connections")
+    # nobody but the anchored mechanisms writes the flag
+    writers = sorted({f.name for f in ck.repo.methods(H1, "HTTP1Connection") if q.stores_to(f.node, "self._disconnect_on_finish")})
+    ck.ob(R, None, ck.repo.cls(H1, "HTTP1Connection"), set(writers) <= {"__init__", "_read_message", "finish", "write_headers"}, "_disconnect_on_finish is written only by __init__, _read_message, write_headers and finish (found: %s)" % ", ".join(writers), construct="writers of _disconnect_on_finish", file=H1)
+
+
 def check_finish(ck):
     R = "C03.finish-early-close"
     fi = ck.func(H1, "HTTP1Connection.finish")
@@ -366,9 +407,13 @@ def run(ck):
     ck.rule("C03.keepalive-acknowledged", "write_headers (server): HTTP/1.0 keep-alive request, connection staying open, delimited response -> Connection: Keep-Alive")
     ck.rule("C03.undelimited-closes", "write_headers (server): a response that is neither bodiless, chunked nor Content-Length-delimited leaves _disconnect_on_finish set")
     ck.rule("C03.no-needless-close", "write_headers (server): _disconnect_on_finish is not raised for a bodiless, chunked or Content-Length-delimited response")
+    ck.rule("C03.exchange-returns-true", "_read_message returns True after a completed exchange on an attached stream; the serving loop is unbounded")
+    ck.rule("C03.per-request-state", "persistence flags start False in a connection object created per request; only the anchored mechanisms write _disconnect_on_finish")
     ck.rule("C03.finish-request-closes", "_finish_request closes the connection iff server and _disconnect_on_finish; close() closes the attached stream")
     check_table(ck)
     check_read_message(ck)
+    check_exchange_result(ck)
+    check_per_request_state(ck)
     check_finish(ck)
     check_write_headers(ck)
     check_finish_request(ck)
@@ -455,6 +500,35 @@ def _drop_conjunct(test_contains, conjunct_src):
     return replace_expr(pred, new)
 
 
+def _seeded_c03(root):
+    new = []
+    done = False
+    for st in root.body:
+        if isinstance(st, ast.If) and "connection_header is not None" in ast.unparse(st.test):
+            done = True
+            continue
+        if isinstance(st, ast.Assign) and ast.unparse(st) == "connection_header = headers.get('Connection')":
+            st = parse_stmt('connection_header = headers.get("Connection", "")')
+        if isinstance(st, ast.If) and "HTTP/1.1" in ast.unparse(st.test):
+            rest = st.orelse
+            st.orelse = []
+            new.append(st)
+            new.append(parse_stmt("connection_header = connection_header.lower()"))
+            new.extend(rest)
+            continue
+        new.append(st)
+    root.body = new
+    return done
+
+
+def _last_return_false(root):
+    last = root.body[-1]
+    if isinstance(last, ast.Return) and isinstance(last.value, ast.Constant) and last.value.value is True:
+        last.value = ast.Constant(value=False)
+        return True
+    return False
+
+
 CKA = "HTTP1Connection._can_keep_alive"
 WH = "HTTP1Connection.write_headers"
 MUTANTS = [
@@ -465,6 +539,10 @@ MUTANTS = [
     ("1.0: POST counted as bodiless method", _m(CKA, replace_expr(lambda n: isinstance(n, ast.Tuple) and _u(n) == "('HEAD', 'GET')", lambda n: parse_expr('("HEAD", "GET", "POST")'))), "C03.keep-alive-table"),
     ("1.0 without Connection header kept alive (default True)", _m(CKA, replace_stmt(lambda st: isinstance(st, ast.Return) and _u(st) == "return False" , lambda st: [parse_stmt("return True")], limit=5)), "C03.keep-alive-table"),
     ("1.1: 'close' matched by prefix only ('closed' etc. irrelevant) -> substring test", _m(CKA, replace_expr(lambda n: isinstance(n, ast.Compare) and _u(n) == "connection_header != 'close'", lambda n: parse_expr('connection_header is None or "close" not in connection_header[1:]'))), "C03.keep-alive-table"),
+    ("seeded C03-adv1: Connection header lower-cased only on the HTTP/1.0 branch", _m(CKA, _seeded_c03), "C03.keep-alive-table"),
+    ("_read_message reports failure after every exchange (connection never reused)", _m("HTTP1Connection._read_message", _last_return_false), "C03.exchange-returns-true"),
+    ("close() clears the close-after-response flag (a late close is forgotten)", _m("HTTP1Connection._clear_callbacks", replace_stmt(lambda st: isinstance(st, ast.Assign) and "_write_callback" in _u(st), lambda st: [st, parse_stmt("self._disconnect_on_finish = False")])), "C03.per-request-state"),
+    ("a connection starts with _read_finished = True (early finish never detected)", _m("HTTP1Connection.__init__", replace_stmt(lambda st: isinstance(st, ast.Assign) and _u(st) == "self._read_finished = False", lambda st: [parse_stmt("self._read_finished = True")])), "C03.per-request-state"),
     ("flag not derived from the table in _read_message", _m("HTTP1Connection._read_message", replace_stmt(lambda st: isinstance(st, ast.Assign) and "_can_keep_alive" in _u(st), lambda st: [parse_stmt("self._disconnect_on_finish = False")])), "C03.flag-from-table"),
     ("flag assigned after headers_received", _m("HTTP1Connection._read_message", _move_flag_after_headers), "C03.flag-from-table"),
     ("keep-alive decision taken without negation", _m("HTTP1Connection._read_message", replace_expr(lambda n: isinstance(n, ast.UnaryOp) and "_can_keep_alive" in _u(n), lambda n: n.operand)), "C03.flag-from-table"),
